@@ -2,48 +2,220 @@
    Property theorems only: statement, [exact] of a lemma of Schema/Proofs.v, [Check] pins, [Example]s
    (non-vacuity, refuted witness by vm_compute), [Print Assumptions].
 
-   Model: Schema/Model.v (export / import / the pipeline-building commands over the stores of
-   Ecs/Model.v).  The serde codecs are abstracted: import takes the schema value that export
-   produced (de (ser s) = Some s); the text level is judged by the correspondence check.
-   [hperm] is the iteration order of the HashMaps export collects steps, dependencies and outputs
-   in: any function that permutes its argument. *)
+   Model: Schema/Model.v — export / import and the commands that build pipelines (pipeline new,
+   update --rename, step new / update / dependency / output, the recording of dependency state
+   by pipeline run, import) over the stores of Ecs/Model.v.  A repository is what a history of
+   such commands, each in a process of its own (own random word), makes of `xvc init`:
+       run_cmds fixed_rename h (init_repo rnd default_name).
+   [fixed_rename = false] is the code as it is: `update --rename Q` accepts a name that another
+   pipeline has (finding P53); [true] is the code after repo-patches/53.
+   The serde codecs are abstracted: import takes the schema value that export produced
+   (de (ser s) = Some s); the text level is judged by the correspondence check (vlib/c14.py).
+   [hperm] is the iteration order of the HashMaps in which export collects steps, dependencies and
+   outputs: any function that permutes its argument.  The only side condition on sizes is that
+   the 64-bit entity counter does not wrap:  2 + hist_cost h + schema_cost s < 2^64. *)
 From Coq Require Import List Bool NArith Lia Permutation.
 From XV Require Import Base.Amap Ecs.Model Schema.Model Schema.Proofs.
 Import ListNotations.
+
+(* the known class: two pipelines carry the same name (decided on the repository; on command
+   histories this is vlib/c14.py accepted_colliding_rename) *)
+Definition Known_dup_names (r : repo) : bool := negb (uniq_names r).
+
+(* the property at full strength, for either behaviour of `update --rename` *)
+Definition RoundTrip (fixed_rename : bool) : Prop :=
+  forall (hperm hperm' : forall A : Type, list A -> list A),
+    (forall A (l : list A), Permutation (hperm A l) l) ->
+    (forall A (l : list A), Permutation (hperm' A l) l) ->
+  forall rnd dn h n n' s ow,
+    let r := run_cmds fixed_rename h (init_repo rnd dn) in
+    (2 + hist_cost h + schema_cost s < two64)%N ->
+    export hperm r n = EOk s -> (ow = true \/ find_pipeline r n' = None) ->
+    exists r', import r n' s ow = ROk r' /\ export hperm' r' n' = EOk (rename_schema n' s).
+Definition C14_full : Prop := RoundTrip false.
 
 Section C14.
 Variable hperm hperm' : forall A : Type, list A -> list A.
 Hypothesis hperm_perm : forall A (l : list A), Permutation (hperm A l) l.
 Hypothesis hperm_perm' : forall A (l : list A), Permutation (hperm' A l) l.
 
-(* 1 (core).  In every repository that satisfies the invariant of reachable repositories and whose
-   pipeline names are pairwise distinct: exporting pipeline n, importing the result under a name n'
-   that is free -- or with --overwrite -- succeeds, and the export of n' is the export of n
-   except for the name.  Any iteration orders, any entity counter that does not wrap. *)
-Theorem export_import_export r n n' s ow :
-  Inv r -> uniq_names r = true -> export hperm r n = EOk s ->
-  (gcounter (r_gen r) + schema_cost s < two64)%N ->
-  (ow = true \/ find_pipeline r n' = None) ->
-  exists r', import r n' s ow = ROk r' /\ Inv r' /\ export hperm' r' n' = EOk (rename_schema n' s).
-Proof. exact (export_import_export_lemma hperm hperm' hperm_perm' r n n' s ow). Qed.
+(* 1 (core).  For every reachable repository outside the known class, every pipeline n, every name
+   n' that is free or given with --overwrite: export n -> import as n' -> export n' is the export
+   of n except for the name.  Any iteration orders on the two exports. *)
+Theorem export_import_export fixed_rename rnd dn h n n' s ow :
+  let r := run_cmds fixed_rename h (init_repo rnd dn) in
+  (2 + hist_cost h + schema_cost s < two64)%N -> Known_dup_names r = false ->
+  export hperm r n = EOk s -> (ow = true \/ find_pipeline r n' = None) ->
+  exists r', import r n' s ow = ROk r' /\ export hperm' r' n' = EOk (rename_schema n' s).
+Proof.
+  exact (fun Hlt HK => C14_roundtrip_lemma hperm hperm' hperm_perm' fixed_rename rnd dn h n n' s ow Hlt
+                           (proj1 (negb_false_iff _) HK)).
+Qed.
 
-(* 1b.  The same for any schema file of version 1 (hand-written files included): what is exported
-   after the import is the file in normal form (dependencies and outputs of every step sorted). *)
-Theorem import_then_export r n s ow :
-  Inv r -> uniq_names r = true -> sc_version s = 1%N ->
-  (gcounter (r_gen r) + schema_cost s < two64)%N ->
+(* 1'.  Once `update --rename` refuses a name that exists, no exclusion is left. *)
+Theorem export_import_export_fixed rnd dn h n n' s ow :
+  let r := run_cmds true h (init_repo rnd dn) in
+  (2 + hist_cost h + schema_cost s < two64)%N ->
+  export hperm r n = EOk s -> (ow = true \/ find_pipeline r n' = None) ->
+  exists r', import r n' s ow = ROk r' /\ export hperm' r' n' = EOk (rename_schema n' s).
+Proof. exact (C14_roundtrip_fixed_lemma hperm hperm' hperm_perm' rnd dn h n n' s ow). Qed.
+
+(* 1''.  Any version-1 schema file (hand-written ones included): what is exported after the import
+   is the file in normal form (dependencies and outputs of every step sorted), under the name. *)
+Theorem import_then_export fixed_rename rnd dn h n s ow :
+  let r := run_cmds fixed_rename h (init_repo rnd dn) in
+  (2 + hist_cost h + schema_cost s < two64)%N -> Known_dup_names r = false -> sc_version s = 1%N ->
   (ow = true \/ find_pipeline r n = None) ->
-  exists r', import r n s ow = ROk r' /\ Inv r' /\
-             export hperm r' n = EOk (norm_schema (rename_schema n s)).
-Proof. exact (import_then_export_lemma hperm hperm_perm r n s ow). Qed.
+  exists r', import r n s ow = ROk r' /\ export hperm r' n = EOk (norm_schema (rename_schema n s)).
+Proof.
+  exact (fun Hlt HK => C14_import_file_lemma hperm hperm_perm fixed_rename rnd dn h n s ow Hlt
+                           (proj1 (negb_false_iff _) HK)).
+Qed.
 
-(* 3.  Without --overwrite an existing name is refused (and a refused command leaves the
-   repository as it was: exec1 keeps the old state). *)
-Theorem import_refuses_existing r n s x :
-  find_pipeline r n = Some x -> sc_version s = 1%N -> import r n s false = RErr PipelineAlreadyFound.
-Proof. exact (import_refuses_existing_lemma r n s x). Qed.
+(* 2.  Importing never alters another pipeline (no exclusion, with or without --overwrite). *)
+Theorem import_preserves_others fixed_rename rnd dn h n s ow r' m :
+  let r := run_cmds fixed_rename h (init_repo rnd dn) in
+  (2 + hist_cost h + schema_cost s < two64)%N -> import r n s ow = ROk r' -> m <> n ->
+  export hperm r' m = export hperm r m.
+Proof. exact (C14_others_lemma hperm hperm_perm fixed_rename rnd dn h n s ow r' m). Qed.
+
+(* 4.  The export is a function of the loaded maps only: it does not depend on the iteration order
+   of the HashMaps ... *)
+Theorem export_stable fixed_rename rnd dn h n :
+  let r := run_cmds fixed_rename h (init_repo rnd dn) in
+  (2 + hist_cost h < two64)%N -> export hperm r n = export hperm' r n.
+Proof. exact (C14_stable_lemma hperm hperm' hperm_perm hperm_perm' fixed_rename rnd dn h n). Qed.
 End C14.
 
+(* ... nor on anything of the ten stores but their maps (event-file split, reverse indices). *)
+Theorem export_maps_only hperm r r' n :
+  smap (r_pipelines r') = smap (r_pipelines r) -> smap (r_rundirs r') = smap (r_rundirs r) ->
+  smap (r_steps r') = smap (r_steps r) -> smap (r_step_parent r') = smap (r_step_parent r) ->
+  smap (r_commands r') = smap (r_commands r) -> smap (r_invalidates r') = smap (r_invalidates r) ->
+  smap (r_deps r') = smap (r_deps r) -> smap (r_dep_parent r') = smap (r_dep_parent r) ->
+  smap (r_outs r') = smap (r_outs r) -> smap (r_out_parent r') = smap (r_out_parent r) ->
+  export hperm r' n = export hperm r n.
+Proof. exact (export_maps_only_lemma hperm r r' n). Qed.
+
+(* 3.  Without --overwrite an existing name is refused and the repository stays as it was (in any
+   repository, reachable or not). *)
+Theorem import_refuses_existing r n s x :
+  find_pipeline r n = Some x -> sc_version s = 1%N ->
+  import r n s false = RErr PipelineAlreadyFound /\
+  forall fixed_rename rnd, exec1 fixed_rename r (rnd, CImport n s false) = r.
+Proof. exact (C14_refusal_lemma r n s x). Qed.
+
+(* every reachable repository satisfies the invariant the proofs run on, and -- with the fixed
+   rename -- has pairwise distinct pipeline names *)
+Theorem reachable_inv fixed_rename rnd dn h :
+  (2 + hist_cost h < two64)%N -> Inv (run_cmds fixed_rename h (init_repo rnd dn)).
+Proof. exact (reachable_inv_lemma fixed_rename rnd dn h). Qed.
+Theorem reachable_uniq_names_fixed rnd dn h :
+  (2 + hist_cost h < two64)%N -> Known_dup_names (run_cmds true h (init_repo rnd dn)) = false.
+Proof. exact (fun Hlt => proj2 (negb_false_iff _) (reachable_uniq_lemma rnd dn h Hlt)). Qed.
+
+(* ---- the statements are pinned ------------------------------------------------------------------ *)
+Check export_import_export :
+  forall hperm hperm' : forall A : Type, list A -> list A,
+  (forall A (l : list A), Permutation (hperm' A l) l) ->
+  forall fixed_rename rnd dn h n n' s ow,
+  let r := run_cmds fixed_rename h (init_repo rnd dn) in
+  (2 + hist_cost h + schema_cost s < two64)%N -> Known_dup_names r = false ->
+  export hperm r n = EOk s -> (ow = true \/ find_pipeline r n' = None) ->
+  exists r', import r n' s ow = ROk r' /\ export hperm' r' n' = EOk (rename_schema n' s).
+Check export_import_export_fixed :
+  forall hperm hperm' : forall A : Type, list A -> list A,
+  (forall A (l : list A), Permutation (hperm' A l) l) -> forall rnd dn h n n' s ow, _.
+Check import_preserves_others :
+  forall hperm : forall A : Type, list A -> list A, (forall A (l : list A), Permutation (hperm A l) l) ->
+  forall fixed_rename rnd dn h n s ow r' m,
+  let r := run_cmds fixed_rename h (init_repo rnd dn) in
+  (2 + hist_cost h + schema_cost s < two64)%N -> import r n s ow = ROk r' -> m <> n ->
+  export hperm r' m = export hperm r m.
+(* with the fixed rename the full statement is a theorem *)
+Check (fun hp hp' (_ : forall A (l : list A), Permutation (hp A l) l) H' =>
+         export_import_export_fixed hp hp' H') : RoundTrip true.
+
+(* ---- non-vacuity: a concrete history meets the hypotheses and exercises the branches ----------- *)
+Definition hid : forall A : Type, list A -> list A := fun _ l => l.
+Definition hrev : forall A : Type, list A -> list A := fun _ l => rev l.
+Lemma hid_perm A (l : list A) : Permutation (hid A l) l.
+Proof. apply Permutation_refl. Qed.
+Lemma hrev_perm A (l : list A) : Permutation (hrev A l) l.
+Proof. symmetry. apply Permutation_rev. Qed.
+
+(* two pipelines; steps with unsorted and duplicate dependencies, outputs, all three invalidation
+   modes, a step update, a recorded dependency, refused commands in between *)
+Definition h1 : list (N * cmd) :=
+  [ (11, CNew [1] (Some [9; 9])); (12, CNew [2] None); (13, CNew [1] None);
+    (14, CStepNew [1] [5] [50; 51] (Some Always)); (15, CStepNew [1] [4] [40] None);
+    (16, CStepNew [1] [5] [0] None);
+    (17, CDeps [1] [5] [[3; 1]; [2; 7]; [3; 1]; [2]]); (18, COuts [1] [5] [[8]; [6; 6]]);
+    (19, CDeps [1] [4] [[2; 7]]); (20, CStepNew [2] [7] [70] (Some Never));
+    (21, CDeps [2] [7] [[1]]); (22, CStepUpdate [1] [4] (Some [41]) (Some Never));
+    (23, CRecord [1] [5] [2; 7] [2; 7; 1]); (24, CDeps [1] [6] [[1]]) ]%N.
+Definition r1 : repo := run_cmds false h1 (init_repo 7 [100]%N).
+Definition s1 : schema :=
+  {| sc_version := 1; sc_name := [1]; sc_workdir := [9; 9];
+     sc_steps := [ {| ss_name := [5]; ss_command := [50; 51]; ss_invalidate := Always;
+                      ss_deps := [[2]; [2; 7; 1]; [3; 1]; [3; 1]]; ss_outs := [[6; 6]; [8]] |};
+                   {| ss_name := [4]; ss_command := [41]; ss_invalidate := Never;
+                      ss_deps := [[2; 7]]; ss_outs := [] |} ] |}%N.
+Example h1_hypotheses :
+  (2 + hist_cost h1 + schema_cost s1 < two64)%N /\ Known_dup_names r1 = false /\
+  export hrev r1 [1]%N = EOk s1 /\ find_pipeline r1 [3]%N = None /\
+  list_names r1 = [[100]; [1]; [2]]%N.
+Proof. vm_compute. repeat split. Qed.
+Example h1_roundtrip :
+  exists r', import r1 [3]%N s1 false = ROk r' /\ export hid r' [3]%N = EOk (rename_schema [3]%N s1) /\
+             export hid r' [2]%N = export hid r1 [2]%N /\ list_names r' = [[100]; [1]; [2]; [3]]%N /\
+             import r' [3]%N s1 false = RErr PipelineAlreadyFound /\
+             (exists r'', import r' [2]%N s1 true = ROk r'' /\
+                          export hrev r'' [2]%N = EOk (rename_schema [2]%N s1) /\
+                          list_names r'' = [[100]; [1]; [3]; [2]]%N).
+Proof.
+  eexists. split; [vm_compute; reflexivity|]. split; [vm_compute; reflexivity|].
+  split; [vm_compute; reflexivity|]. split; [vm_compute; reflexivity|]. split; [vm_compute; reflexivity|].
+  eexists. split; [vm_compute; reflexivity|]. split; vm_compute; reflexivity.
+Qed.
+(* a hand-written file with unsorted dependencies comes back sorted *)
+Example h1_import_file :
+  let s := {| sc_version := 1; sc_name := [77]; sc_workdir := [];
+              sc_steps := [ {| ss_name := [5]; ss_command := []; ss_invalidate := ByDependencies;
+                               ss_deps := [[3]; [1]; [2]]; ss_outs := [[2]; [1]] |} ] |}%N in
+  exists r', import r1 [3]%N s false = ROk r' /\
+             export hid r' [3]%N = EOk (norm_schema (rename_schema [3]%N s)) /\ norm_schema s <> s.
+Proof. eexists. split; [vm_compute; reflexivity|]. split; [vm_compute; reflexivity|]. vm_compute. discriminate. Qed.
+
+(* ---- the full statement is refuted on the code as it is (finding P53) ----------------------------- *)
+(* pipeline a (step sa), pipeline b (step sb); `pipeline -p b update --rename a` is accepted;
+   `export a` -> `import --overwrite a` -> `export a` now prints pipeline b's steps *)
+Definition h_dup : list (N * cmd) :=
+  [ (1, CNew [97] None); (2, CNew [98] None); (3, CStepNew [97] [1] [10] None);
+    (4, CStepNew [98] [2] [20] None); (5, CRename [98] [97]) ]%N.
+Example h_dup_in_class : Known_dup_names (run_cmds false h_dup (init_repo 7 [100]%N)) = true /\
+                         Known_dup_names (run_cmds true h_dup (init_repo 7 [100]%N)) = false.
+Proof. vm_compute. split; reflexivity. Qed.
+Lemma C14_full_refuted_dup_names : ~ C14_full.
+Proof.
+  intros H.
+  destruct (H hid hid hid_perm hid_perm 7%N [100]%N h_dup [97]%N [97]%N
+              {| sc_version := 1; sc_name := [97]; sc_workdir := [];
+                 sc_steps := [ {| ss_name := [1]; ss_command := [10]; ss_invalidate := ByDependencies;
+                                  ss_deps := []; ss_outs := [] |} ] |}%N true) as (r' & E1 & E2).
+  - vm_compute. reflexivity.
+  - vm_compute. reflexivity.
+  - now left.
+  - vm_compute in E1. injection E1 as <-. vm_compute in E2. discriminate.
+Qed.
+
 Print Assumptions export_import_export.
+Print Assumptions export_import_export_fixed.
 Print Assumptions import_then_export.
+Print Assumptions import_preserves_others.
+Print Assumptions export_stable.
+Print Assumptions export_maps_only.
 Print Assumptions import_refuses_existing.
+Print Assumptions reachable_inv.
+Print Assumptions reachable_uniq_names_fixed.
+Print Assumptions C14_full_refuted_dup_names.
